@@ -97,6 +97,18 @@ func (ex *Exec) jsonAssign(dst *Value, dt types.Type, src Value, st types.Type) 
 		src = ex.load(p)
 		st = st.Underlying().(*types.Pointer).Elem()
 	}
+	// a nil pointer, slice, map or interface is the JSON value null, which
+	// json.Unmarshal treats as "leave the destination alone"
+	switch x := src.(type) {
+	case *Map:
+		if x == nil {
+			return
+		}
+	case Slice:
+		if x.a == nil {
+			return
+		}
+	}
 	switch du := dt.Underlying().(type) {
 	case *types.Pointer:
 		cur := ex.load(dst).(*Value)
